@@ -2,20 +2,79 @@
 dilation symmetry.  Purely metamorphic: no reference implementation of any observable; the oracle is
 O(T x) = T' O(x) with T drawn from the symmetry group and T' the induced action on the output.
 
-Facets (one per observable; each case draws a configuration AND 1-2 transformations applicable to that observable):
-  gr          gr.getresults (unary..quinary): translate / lattice / perm / swap / axes / dilate
+Facets (one per observable; each case draws a configuration AND 1..all transformations applicable to that observable):
+  gr          gr.getresults (unary..quinary, K = 6: total only): translate / lattice / perm / swap / axes / dilate / rotate(open)
   sq          sq.getresults (explicit integer q-vectors or qrange): translate / lattice / perm / swap / axes
-  neighbours  Nnearests, cutoffneighbors, cutoffneighbors_particletype (written file): translate / lattice / perm / axes / swap
-  boo3d       boo_3d q_l, Q_l, w_l, W_l, w-hat_l, W-hat_l from a synthetic neighbour (+weight) file: + rotate (open)
-  boo2d       boo_2d psi_l (modulus; complex value up to exp(i l alpha)): + rotate (open)
-  tetrahedral q8_tetrahedral: translate / lattice / perm / axes / rotate (open)
-  s2          S2.particle_s2: translate / lattice / perm / swap / axes
-  hessian     HessianMatrix.diagonalize_hessian (saved matrix, omega, PR): translate / lattice / perm / swap / axes / rotate
+  neighbours  Nnearests, cutoffneighbors, cutoffneighbors_particletype (written file): translate / lattice / perm / axes / swap / rotate(open)
+  boo3d       boo_3d q_l, Q_l, w_l, W_l, w-hat_l, W-hat_l, s_ij, G_l(r) from a synthetic neighbour (+weight) file: + rotate (open)
+  boo2d       boo_2d psi_l (modulus; complex value up to exp(i l alpha)), G_l(r): + rotate (open)
+  tetrahedral q8_tetrahedral: translate / lattice / perm / axes / swap / rotate (open)
+  s2          S2.particle_s2 (+ particle_gr with savegr): translate / lattice / perm / swap / axes / rotate(open)
+  hessian     HessianMatrix.diagonalize_hessian (saved matrix, omega, PR, saved eigenvectors): translate / lattice / perm / swap / axes / rotate
   dynamics    Dynamics.relaxation (xu / x / both; selection; cage-relative): translate / lattice / perm / swap / axes
   gyration    gyration_tensor descriptors: translate / perm / axes / rotate
   pr          participation_ratio: perm / axes / rotate
-  samples     first frame of the repository's sample dumps: gr, sq, Nnearests under translate / lattice / perm / swap
+  sizes_large thorough tier only: every observable at N = 499..1025 (S2, bond order, Hessian 190..513; clouds 1999..2049)
+  samples     first frame(s) of the repository's sample dumps: gr, sq, Nnearests, cutoffneighbors, S2, tetrahedral,
+              boo_3d / boo_2d, relaxation under translate / lattice / perm / swap / axes (/ dilate for gr) and compositions
   samples_large  g(r) of the 6400..10000-particle sample dumps (thorough tier; one case in quick)
+
+OBSERVABLE x TRANSFORMATION MATRIX (evidence tags `cell:<observable>:<kind>`, every `x` cell is populated in every
+quick run; `-` = the statement / the routine does not define the relation, reason below)
+                     translate lattice perm swap axes rotate(open) dilate
+  gr  (all columns)      x        x      x    x    x       x(1)       x
+  sq  (all columns)      x        x      x    x    x       -(2)       -(6)
+  nn / cutoff            x        x      x    x(3) x       x(1)       -(6)
+  cutoff_type            x        x      x    x    x       x(1)       -(6)
+  q_l Q_l w_l w-hat sij  x        x      x    x(3) x       x          -(6)
+  psi_l, G_l(r)          x        x      x    x(3) x       x          -(6)
+  tetrahedral            x        x      x    x(3) x       x          -(6)
+  s2 (+ particle_gr)     x        x      x    x    x       x(1)       -(6)
+  hessian matrix/omega/PR x       x      x    x    x       x          -(6)
+  relaxation             x        x      x    x    x       -(4)       -(6)
+  gyration               x        -(5)   x    -(5) x       x          -(6)
+  pr                     -(5)     -(5)   x    -(5) x       x          -(6)
+  sample files           x        x      x    x    x       -(2)       x (gr)
+ (1) not listed by the statement, implied: the observable depends on pair distances only and the routine ignores the
+     box on open axes (it only sets the bin range / normalisation, which is kept)
+ (2) S(q) needs a periodic box (box-commensurate wave vectors); the sample files are periodic
+ (3) the routine ignores the labels: the output must not change at all (K >= 2 configurations, labels swapped)
+ (4) F_s(q, t) is averaged over the Cartesian axes only: direction dependent by definition
+ (5) no box / no origin / no species in the signature
+ (6) the statement restricts dilation to g(r)
+
+CLAUSES (statement + quantifier, split; facet . assertion; class tags that show the axis is spanned)
+  c1  rigid translation leaves every observable unchanged            all config facets . close_tol / compare_lists;
+      tf-translate, translate-far (5..40 cell vectors), per-frame translations for static observables, movebox on/off
+  c2  shifting any particle by whole cell vectors                     same; tf-lattice with lat-near (|n| <= 2), lat-several
+      (some |n| in 3..8), lat-far (one particle 20..60 cells away); inputs themselves input-image1 / input-several (+-4)
+      / input-drift (whole frame several cells off) = unwrapped coordinates; per-frame shifts for relaxation(x)
+  c3  consistent relabelling, per-particle outputs permute            tf-perm: per-particle arrays mapped through the
+      permutation, neighbour / weight files and selections mapped, file rows in shuffled order
+  c4  axis permutation with the box                                   tf-axes for ortho AND tilted cells (P H P^T is a
+      general matrix; tri / tilt-negative / tilt-positive); S(q): orthogonal only, q-vectors permuted, edges-unequal
+  c5  swapping species labels swaps the partial columns only          tf-swap: gr / sq columns renamed (K2..K5; K6: total
+      only), parameter tables of cutoff_type / S2 / Hessian (eps, sigma, r_c, masses) / relaxation (diameters) permuted;
+      label-blind routines (nn, cutoff, boo, tetrahedral) must not change
+  c6  rotation of open clusters leaves rotational invariants unchanged  tf-rotate (SO(2) angle, SO(3) quaternion, angle
+      > 0.1): q_l Q_l, w_l (pseudo-scalar for odd l: l-odd / l-even), w-hat_l, s_ij, G_l(r), |psi_l| and psi_l e^{il alpha},
+      tetrahedral, gyration descriptors, PR, Hessian (P H P^T with the rotation blocks)
+  c7  common dilation leaves g(r) unchanged (r scales)                gr . compare_gr with s; tf-dilate, s in 0.1..10
+  c8  'the symmetry group generated by'                               compositions: tf-single / tf-pair / tf-triple /
+      tf-chain4+ (every applicable component), tf-translate.lattice.perm.axes = the full chain
+  c9  'all configurations'                                            d2 / d3, ortho / tri, edges-unequal, K1..K6,
+      mask-full / partial / open, gas / cluster / lattice-exact / lattice-jit / critical-line (all pair vectors short in
+      every Cartesian component but beyond the half cell of a tilted cell), frames1 / frames2, size-boundary-N<n>
+      (31..257 quick, 499..1025 thorough), size-boundary-bins / -nq / -k / -T, unequal masses (mass-unequal), maxcn = Nmax
+  c10 'incl. the repository's own sample trajectories'                samples / samples_large: cell:<file>:<kind>
+  c11 to floating-point accuracy                                      tolerances derived from the coordinate rounding noise
+      (4 ulp of the largest coordinate) divided by the shortest length the output depends on, with absolute floors
+ Call-protocol classes (not clauses of the statement, reach of the generator): proto-fresh / proto-inplace (ONE Snapshots
+ object overwritten in place) / proto-twice (second evaluation on the same analysis object) / proto-outfile (optional
+ output files requested) / proto-interleave (another degree and other data in between) / proto-default-file,
+ rep-intcell (integer cell as int64), qrep-float64 / float32 / int32, eps-int64, massrep-* / diamrep-* (dictionaries with
+ extra keys, reversed insertion order, int values), Nmax-default / exact / plus / large; every returned array /
+ DataFrame is kept alive and re-compared bit for bit at the end of the case (kept_results_rechecked).
 """
 from __future__ import annotations
 
@@ -28,84 +87,135 @@ NT = ("non-trivial = every drawn transformation component is far from the identi
       "cell edge on some axis, >= 1 non-zero lattice vector, permutation != id, label map != id, axis map != id, "
       "rotation angle > 0.1, |s-1| >= 0.1) and the observable is non-degenerate (not all zero / not all equal)")
 
-RULE = ("generated configurations (2D/3D; orthogonal and LAMMPS-triclinic cells, unequal edges, arbitrary origin; gas / "
-        "cluster / jittered and exact lattices; particles optionally outside the box by whole cell vectors; all "
-        "periodicity masks incl. fully open; 1-2 frames, 2-5 for dynamics; 1-5 species) x the symmetry group "
-        "generated by rigid translations (per frame for static observables), per-particle (and per-frame) integer "
-        "cell-vector shifts on periodic axes, id permutations (neighbour/weight files, selections permuted "
-        "consistently, rows in shuffled order), species-label permutations (parameter matrices, masses, diameters "
-        "permuted consistently), axis permutations with the box (orthogonal cells), SO(2)/SO(3) rotations of open "
-        "clusters, common dilations (g(r)); plus the first frame of the repository's sample dumps. " + NT)
+RULE = ("generated configurations (2D/3D; orthogonal and LAMMPS-triclinic cells of either tilt sign, unequal edges, "
+        "integer-valued cells as int64, arbitrary origin; gas / cluster / jittered and exact lattices / critical lines "
+        "in strongly tilted cells; wrapped, image-shifted and unwrapped (several cells) inputs; all periodicity masks "
+        "incl. fully open; 1-2 frames, 2-5 and 31-33 for dynamics; 1-6 species; N = 2-20 and block-boundary sizes "
+        "31..257 (499..1025 in the thorough tier)) x the symmetry group generated by rigid translations (also by 5-40 "
+        "cell vectors; per frame for static observables), per-particle (and per-frame) integer cell-vector shifts on "
+        "periodic axes (|n| <= 2, <= 8, one particle 20-60 cells away), id permutations (neighbour/weight files, "
+        "selections permuted consistently, rows in shuffled order), species-label permutations (parameter matrices, "
+        "masses, diameters permuted consistently), axis permutations with the box (orthogonal and tilted cells), "
+        "SO(2)/SO(3) rotations of open clusters, common dilations (g(r)); 1 component up to every applicable one "
+        "composed; plus the first frames of the repository's sample dumps under all of these. " + NT)
 
 ASSUMPTIONS = [
     "minimum image = fractional rounding (contract of C02): a pair whose periodic fractional separation is within 1e-9 "
     "of a half-integer may take either image; in orthogonal cells both have the same length, in tilted cells such "
     "cases are not asserted (counted as skip-tri-tie); direction-dependent observables never use such a bond",
-    "discrete decisions are asserted only where decided: g(r) bins with a pair within 1e-9 (relative) of one of their "
-    "edges are not compared; neighbour lists are compared position-wise by distance so that only entries tied within "
-    "1e-9 (d + L) may differ (cut-off lists may differ by entries on the cut-off); tetrahedral order skips particles "
-    "whose 4th/5th neighbours tie; S2 skips particles with a pair on r_max; Q(t), chi4 are skipped when some "
-    "displacement^2 is within 1e-8 of the mobility threshold; Hessian cases with a pair within 1e-6 of its cut-off "
-    "are skipped",
+    "discrete decisions are asserted only where decided: g(r) / G_l(r) bins with a pair within 1e-9 (relative, plus 8x "
+    "the coordinate rounding noise) of one of their edges are not compared; neighbour lists are compared position-wise "
+    "by distance so that only entries tied within 1e-9 (d + L) may differ (cut-off lists may differ by entries on the "
+    "cut-off); tetrahedral order skips particles whose 4th/5th neighbours tie; S2 skips particles with a pair on "
+    "r_max; Q(t), chi4 are skipped when some displacement^2 is within 1e-8 of the mobility threshold; Hessian cases "
+    "with a pair within 1e-6 of its cut-off are skipped",
+    "coordinate rounding noise = 4 ulp of the largest coordinate / cell entry of either configuration; every smooth "
+    "tolerance carries the term noise / (shortest length the output depends on) so that translations by tens of cell "
+    "vectors stay sound",
     "S(q): orthogonal all-periodic cells only (the routine uses box lengths only); per-vector values are rounded to "
     "1e-6 before the |q| average, hence atol 2.1e-6; cases where a |q| sits within 1e-9 of a rounding boundary are "
-    "skipped under axis permutation (grouping could change)",
+    "skipped under axis permutation (grouping could change); integer wave vectors are also passed as float64 / "
+    "float32 / int32 arrays (accepted by the unchanged routine with identical results; nested lists are not: .astype)",
     "boo_3d: bonds within 1e-5 rad of the polar axis (but not on it) are skipped: theta = arccos(z/r) is "
-    "ill-conditioned there by construction of the formula; w-hat_l is asserted where sum_m |q_lm|^2 >= 1e-4; w_l "
-    "is a pseudo-scalar for odd l (sign = det of the orthogonal map)",
+    "ill-conditioned there by construction of the formula; w-hat_l and s_ij are asserted where sum_m |q_lm|^2 >= 1e-4; "
+    "w_l is a pseudo-scalar for odd l (sign = det of the orthogonal map); s_ij is stored as float32 (atol 2.5e-7); "
+    "coordination numbers <= Nmax (the documented meaning of Nmax), cn = Nmax included",
     "Hessian: pair distances >= 0.8 sigma, cell perpendicular widths >= 2.1 r_c (c11's domain); participation ratio "
-    "is compared only for eigenvalues isolated by > 1e-3 ||H||",
+    "and saved eigenvectors are compared only for eigenvalues isolated by > 1e-3 ||H||; masses / diameters dictionaries "
+    "may hold more species than the configuration uses, in any insertion order (looked up by label)",
     "rotations are applied only with all axes open (the box is then irrelevant to the routine), also when the box is "
-    "not larger than the cluster",
+    "not larger than the cluster; g(r), neighbour lists and S2 of open clusters are rotated too (distance-only "
+    "observables: implied by the statement, not listed in it)",
+    "optional output files (outputfile, saveqvectors, savegr, saveevecs, output_phi, outputw...) only have to exist "
+    "when requested; their rounded text content is not compared",
+    "not asserted: time_corr / time_average of the bond-order classes, Dynamics.sq4 / slowS4 (other properties), "
+    "relaxation under rotation (F_s is averaged over the Cartesian axes), Hessians of the sample dumps (no potential)",
 ]
 
 MANIFEST = {
     "text": ("Metamorphic symmetry check of eleven observables: for generated configurations (and the repository's own "
-             "sample dumps) the analysis is run on the input and on a transformed copy (rigid translation, per-particle "
-             "cell-vector shifts, id relabelling, species-label permutation, axis permutation with the box, SO(2)/SO(3) "
-             "rotation of open clusters, dilation with the bin width) and the two outputs must be related by the "
-             "induced map: g(r) and S(q) columns (partials permuted), neighbour files (ids mapped), q_l/Q_l/w_l/"
-             "w-hat_l, psi_l, tetrahedral order, S2, saved Hessian = P H P^T with its spectrum and participation "
-             "ratios, relaxation tables, gyration descriptors, participation ratio. Facets: gr, sq, neighbours, "
-             "boo3d, boo2d, tetrahedral, s2, hessian, dynamics, gyration, pr, samples, samples_large."),
+             "sample dumps) the analysis is run on the input and on a transformed copy (rigid translation - also far, "
+             "per-particle cell-vector shifts - also by many cells and of unwrapped inputs, id relabelling, species-label "
+             "permutation, axis permutation with the box for orthogonal and tilted cells, SO(2)/SO(3) rotation of open "
+             "clusters, dilation with the bin width, and compositions of up to all of them) and the two outputs must "
+             "be related by the induced map: g(r) and S(q) columns (partials permuted), neighbour files (ids mapped), "
+             "q_l/Q_l/w_l/w-hat_l/s_ij/G_l(r), psi_l, tetrahedral order, S2 and particle g(r), saved Hessian = P H P^T "
+             "with its spectrum, participation ratios and eigenvectors, relaxation tables, gyration descriptors, "
+             "participation ratio. The observable x transformation matrix is explicit (tags cell:<obs>:<kind>); sizes "
+             "include block boundaries (31..257, thorough 499..1025); call protocols include in-place reuse of the "
+             "input objects, a second evaluation on the same object, optional output files, value-equal argument "
+             "representations, and every returned object is re-compared bit for bit at the end of the case. Facets: "
+             "gr, sq, neighbours, boo3d, boo2d, tetrahedral, s2, hessian, dynamics, gyration, pr, sizes_large, samples, "
+             "samples_large."),
     "note": ("No reference implementation: only relative statements are checked, so an error common to all "
              "orientations/labellings is invisible here (C03-C17 cover absolute values). Trusted base: pbt/ref/geom "
              "(used only to find items on decision boundaries, which are then not asserted) and numpy. Smooth outputs "
-             "rtol 1e-8; rounded S(q) atol 2.1e-6."),
+             "rtol 1e-8 plus the coordinate-noise term; rounded S(q) atol 2.1e-6; float32 s_ij atol 2.5e-7."),
     "technique": "property-based testing (Hypothesis): metamorphic relations O(T x) = T' O(x) over a generated symmetry group",
 }
 
+
+def _large_case():
+    """thorough tier only: every observable whose cost allows it at N = 499..1025 (S2, bond order, Hessian: 190..513)"""
+    from hypothesis import strategies as st
+    return st.one_of(S.gr_case("large"), S.sq_case("large"), S.neigh_case("large"), S.neigh_case("large"), S.s2_case("large"),
+                     L.boo_case(2, "large"), L.boo_case(3, "large"), L.tetra_case("large"), L.hess_case("large"),
+                     L.dyn_case("large"), L.cloud_case(False, "large"), L.cloud_case(True, "large"))
+
+
+_CHECKS = {"gr": S.check_gr, "sq": S.check_sq, "nn": S.check_neigh, "cutoff": S.check_neigh, "cutoff_type": S.check_neigh,
+           "s2": S.check_s2, "boo2d": L.check_boo2, "boo3d": L.check_boo3, "tetrahedral": L.check_tetra,
+           "hessian": L.check_hess, "relaxation": L.check_dyn, "gyration": L.check_gyration, "pr": L.check_pr}
+
+
+def check_large(case):
+    info = _CHECKS[case["obs"]](case)
+    info["tags"] = ["obs-" + case["obs"]] + list(info.get("tags", []))
+    return info
+
+
+def describe_any(case):
+    return L.describe_cloud(case) if "x" in case else C.describe(case)
+
+
 FACETS = [
     Facet("gr", S.gr_case(), S.check_gr, quick=240, thorough=6000, describe=C.describe, shards_quick=3,
-          rule="g(r) all columns under translate/lattice/perm/swap/axes/dilate; " + NT),
+          rule="g(r) all columns under translate/lattice/perm/swap/axes/dilate/rotate(open); " + NT),
     Facet("sq", S.sq_case(), S.check_sq, quick=300, thorough=8000, describe=C.describe, shards_quick=2,
           rule="S(q) all columns under translate/lattice/perm/swap/axes; " + NT),
     Facet("neighbours", S.neigh_case(), S.check_neigh, quick=400, thorough=10000, describe=C.describe, shards_quick=2,
-          rule="written neighbour files (N nearest / cut-off / type cut-off) under translate/lattice/perm/axes/swap; " + NT),
+          rule="written neighbour files (N nearest / cut-off / type cut-off) under translate/lattice/perm/axes/swap/"
+               "rotate(open); " + NT),
     Facet("boo3d", L.boo_case(3), L.check_boo3, quick=160, thorough=5000, describe=C.describe, shards_quick=4,
-          rule="q_l Q_l w_l W_l and normalised, fixed bond topology, under translate/lattice/perm/axes/rotate; " + NT),
+          rule="q_l Q_l w_l W_l and normalised, s_ij, G_l(r); fixed bond topology, under translate/lattice/perm/axes/"
+               "rotate/swap; " + NT),
     Facet("boo2d", L.boo_case(2), L.check_boo2, quick=400, thorough=10000, describe=C.describe, shards_quick=2,
-          rule="psi_l, fixed bond topology, under translate/lattice/perm/axes/rotate; " + NT),
+          rule="psi_l, G_l(r); fixed bond topology, under translate/lattice/perm/axes/rotate/swap; " + NT),
     Facet("tetrahedral", L.tetra_case(), L.check_tetra, quick=400, thorough=10000, describe=C.describe, shards_quick=2,
-          rule="q8_tetrahedral under translate/lattice/perm/axes/rotate; " + NT),
+          rule="q8_tetrahedral under translate/lattice/perm/axes/rotate/swap; " + NT),
     Facet("s2", S.s2_case(), S.check_s2, quick=240, thorough=6000, describe=C.describe, shards_quick=2,
-          rule="S2.particle_s2 under translate/lattice/perm/swap/axes; " + NT),
+          rule="S2.particle_s2 (and particle_gr with savegr) under translate/lattice/perm/swap/axes/rotate(open); " + NT),
     Facet("hessian", L.hess_case(), L.check_hess, quick=400, thorough=10000, describe=C.describe, shards_quick=2,
-          rule="saved Hessian, spectrum, PR under translate/lattice/perm/swap/axes/rotate; non-trivial additionally "
-               "needs >= 1 interacting pair"),
+          rule="saved Hessian, spectrum, PR, saved eigenvectors under translate/lattice/perm/swap/axes/rotate; "
+               "non-trivial additionally needs >= 1 interacting pair"),
     Facet("dynamics", L.dyn_case(), L.check_dyn, quick=400, thorough=10000, describe=C.describe, shards_quick=2,
           rule="Dynamics.relaxation table under translate/lattice/perm/swap/axes; non-trivial additionally needs motion"),
     Facet("gyration", L.cloud_case(False), L.check_gyration, quick=400, thorough=20000, describe=L.describe_cloud,
           rule="gyration descriptors under translate/perm/axes/rotate; non-trivial: N >= 3, R_g > 0"),
     Facet("pr", L.cloud_case(True), L.check_pr, quick=400, thorough=20000, describe=L.describe_cloud,
           rule="participation ratio under perm/axes/rotate; non-trivial: 1/N < PR < 1"),
+    Facet("sizes_large", _large_case(), check_large, quick=0, thorough=640, describe=describe_any,
+          rule="thorough tier only: every observable at particle numbers on the block boundaries 499..1025 (S2 / bond "
+               "order / Hessian 190..513, point clouds 1999..2049) under its transformations",
+          thorough_budget_s=3000.0),
     Facet("samples", S.sample_case(False), S.check_sample, quick=10, thorough=480, describe=S.describe_sample,
-          rule="first frame of the repository sample dumps: gr / sq / Nnearests of the 500..1000-particle files, sq / "
-               "Nnearests of the 6400..10000-particle files, under translate/lattice/perm/swap with bulk numbers "
-               "from numpy default_rng(k), k drawn by Hypothesis",
+          rule="first frame(s) of the repository sample dumps: gr / sq / Nnearests / cutoffneighbors / S2 / tetrahedral / "
+               "boo_3d / boo_2d / relaxation of the 500..1000-particle files, sq / Nnearests of the 6400..10000-particle "
+               "files, under translate/lattice/perm/swap/axes(/dilate) and their compositions with bulk numbers from "
+               "numpy default_rng(k), k drawn by Hypothesis",
           quick_budget_s=240.0, thorough_budget_s=3000.0),
     Facet("samples_large", S.sample_case(True), S.check_sample, quick=1, thorough=48, describe=S.describe_sample,
           rule="g(r) (coarse bins) of the first frame of the 6400..10000-particle sample dumps (incl. the 67x10.8x10.8 "
-               "box and the triclinic 2D file) under translate/lattice/perm/swap; thorough-tier facet, one case in quick",
+               "box and the triclinic 2D file) under translate/lattice/perm/swap/axes/dilate; thorough-tier facet, one case in quick",
           quick_budget_s=240.0, thorough_budget_s=3000.0),
 ]
